@@ -274,6 +274,23 @@ def guarded(chk, tally, part, fn, *args):
                   "kernel-crash/" + part, "worker process killed by signal %s: %s" % (m.group(1)[1:], str(ex)[-800:]))
 
 
+def run_dtypec(chk, tally, exprs, spellings, work):
+    """Composite models: the request reaches every part."""
+    reqs = [{"mode": "dtypec", "models": [e], "spellings": spellings, "first_tid": 1 + k * 1000} for k, e in enumerate(exprs)]
+    outs = vlib.run_workers_parallel(WORKER, reqs, subdir(work, "dtypec"), timeout=3000)
+    events = sorted((e for o in outs for e in o), key=lambda e: e["tid"])
+    if len(events) != len(exprs) * len(spellings):
+        raise vlib.Machinery("composite dtype worker returned %d events" % len(events))
+    rejects, _ = validate_batches(chk, [events], "precision requests on composite models")
+    chk.cov["traces_validated_against_impl"] += len(events)
+    for ev, clause, detail in rejects:
+        tally.add(dict(key_of(clause), spelling=ev["spelling"]),
+                  {"kind": "dtypec", "args": [[ev["model"]], [ev["spelling"]]], "event": ev}, clause, detail)
+    for ev in events:
+        chk.case(["dtypec", ev["model"], ev["spelling"]], True, sample=None)
+    return events
+
+
 # ------------------------------------------------------------------ (c) precision requests
 def run_dtype(chk, tally, models, spellings, work):
     reqs, tid = [], 1
@@ -349,6 +366,8 @@ def run(chk, args):
                     guarded(chk, tally, "agree", run_agree, [sc["model"]], work)
                 elif sc["kind"] == "agree":
                     guarded(chk, tally, "agree", run_agree, sc["args"][0], work)
+                elif sc["kind"] == "dtypec":
+                    guarded(chk, tally, "dtypec", run_dtypec, sc["args"][0], sc["args"][1], work)
                 elif sc["kind"] == "dtype" and "args" in sc:
                     guarded(chk, tally, "dtype", run_dtype, sc["args"][0], sc["args"][1], work)
             tally.report(chk)
@@ -366,6 +385,9 @@ def run(chk, args):
         run_sources(chk, tally, src_models, work)
         guarded(chk, tally, "dtype", run_dtype,
                 [m for m in (DTYPE_MODELS if thorough else DTYPE_MODELS[:1]) if m in names], spellings, work)
+        guarded(chk, tally, "dtypec", run_dtypec,
+                ["sphere@hardsphere", "sphere+cylinder", "sphere*cylinder"] if thorough else ["sphere@hardsphere", "sphere+cylinder"],
+                spellings, work)
         if thorough:
             agree_models = names
         else:
